@@ -158,6 +158,17 @@ def gen_tower(rng, tier, rs):
                     yield Case(op, ["r%d" % r, 0, "-", "none", hx(z)], nontrivial=True)
             power = sq
             level += 1
+        # the running quotient of the tower division EQUALS a power (branch `x >= p` of PreparedLarge::new taken
+        # with equality): n = radix_powers[0]^j = product of tower powers, exactly and with a small tail
+        p0 = (r ** d) ** 16
+        j = 2
+        while j <= 12 and j * p0.bit_length() <= maxbits:
+            base = p0 ** j
+            for v in (base, base + 1, base - 1, base + rng.getrandbits(60), base + p0 - 1):
+                op = "u.fmt" if rng.random() < 0.7 else "i.fmt"
+                z = v if op == "u.fmt" or rng.random() < 0.5 else -v
+                yield Case(op, ["r%d" % r, 0, "-", "none", hx(z)], nontrivial=True)
+            j += 1
 
 
 def gen_fmt(rng, tier):
@@ -225,6 +236,21 @@ def gen_fmt(rng, tier):
         if r in (2, 8, 10, 16) and rng.random() < 0.5:
             t = {2: "b", 8: "o", 10: "d", 16: rng.choice("xX")}[r]
         yield Case("i.fmt" if neg else "u.fmt", [t, rng.randrange(10), fl, ws, hx(-n if neg else n)], nontrivial=True)
+    # 4b. width/padding of numbers printed by PreparedLarge with big chunks at tower levels i = 1, 2, 3 (PreparedLarge::width
+    #     sums (digits_per_word * CHUNK_LEN) << i over the chunks): the padding must still be exactly width - length
+    for r in rs:
+        if r in POW2:
+            continue
+        base = 16 * dpw(r)
+        for lvl in ((1, 2, 3) if tier == "quick" else (1, 2, 3, 4)):
+            for _ in range(1 if tier == "quick" else 3):
+                L = rng.randrange(base * 2 ** lvl + 1, base * 2 ** (lvl + 1))
+                n = num_with_digits(rng, r, L, rng.choice(["max", "min", "random"]))
+                neg = rng.random() < 0.5
+                fl = rng.choice(FLAGS)
+                tot = L + (1 if neg or "+" in fl else 0)
+                for w in (tot + 1, tot + 7):
+                    yield Case("i.fmt" if neg else "u.fmt", ["r%d" % r, rng.randrange(10), fl, dec(w), hx(-n if neg else n)], nontrivial=True)
     # 5. the radix-power tower of PreparedLarge::new: powers r^(dpw*16*2^i) computed as the code does; the squaring loop
     #    stops by comparing word counts (2*len(prev) - 1 > len(number)), so numbers whose word count is 2L-2, 2L-1, 2L for
     #    the length L of every tower level, just below/above the squared power, decide how many levels are built
@@ -501,10 +527,20 @@ REFINED = [
     "shl_in_place + add_in_place into the result buffer, buffer sizes of Repr::from_chunks) = positional chunks, mutually inverse, all k >= 1, all W (chunks_model)",
     "byte / two's complement / chunk encodings: round trip and minimality of the positional specification "
     "(le_bytes_round_trip, signed_bytes_round_trip, chunks_round_trip, chunks_zero_panics)",
+    "single-word divisions of the printers ON WORDS (Model/Text/FmtWord.lean): PreparedMedium::new and write_chunk run on the word buffer with "
+    "builder-div's fast_div_by_word_in_place model (normalising shl_in_place, div_rem_2by1 per word, remainder un-shift; contract "
+    "fastDivByWordInPlace_spec, C02) + trimming of zero words + assert_eq!(buffer_len, 0); PreparedDword::new's three-part split with shl_dword, "
+    "three div_rem_2by1 by the normalised range_per_word (contract div2by1, discharged against num-modular's Algorithm 4 in C02 "
+    "nm_contracts_discharged) and double_word(q0,q1) << shift without overflow — equal to the number-level / and %, no precondition fails, "
+    "all radices, all (even) word sizes (medium_on_words, write_chunk_on_words, dword_split_on_words)",
+    "{:#b} {:#o} {:#x} {:#X} (optionally +) -> from_str_with_radix_prefix returns the same integer and the prefix's radix "
+    "(print_prefix_parse_round_trip); digit strings differing only by `_` separators parse alike (parse_underscores_ignored)",
 ]
 FRONTIER = [
-    "num_modular PreMulInv1by1 / Normalized2by1Divisor single-word divisions incl. the normalisation shifts in PreparedDword::new (Nat / and %)",
-    "div::fast_div_by_word_in_place, TypedRepr div_rem / sqr / pow / mul, mul_word_in_place_with_carry (C01/C02 kernels; Nat arithmetic here)",
+    "fast_div::FastDivideSmall::div_rem (division of a word by the radix in PreparedWord::new / get_digit; dashu's own multiply-shift "
+    "reciprocal, not exported by C02): Nat / and % here",
+    "TypedRepr div_rem / sqr / pow / mul of the divide-and-conquer tower and mul_word_in_place_with_carry / UBig * and + of the parsers: "
+    "C01/C02 kernels (ubig_div_rem_exact, mul theorems); Nat arithmetic here",
     "arch::digits::digit_chunk_raw_to_ascii SWAR byte trick and DigitWriter buffering (modelled per byte)",
     "shift::shr_in_place / shl_in_place / add_in_place inside the chunk routines are builder-div's / C01's mirrored models with their proved specs (reused)",
     "big-endian byte functions modelled as mirror images (list reversal) of the little-endian ones",
@@ -513,7 +549,9 @@ THEOREMS = ["Dashu.Props.C07." + t for t in [
     "positional_representation", "radix_table", "print_non_pow2_digits", "print_size_classes", "big_chunk_padded",
     "print_pow2_digits", "layout_eq_pad_integral", "print_eq_reference", "parse_radix_eq_grammar", "parse_default_eq_grammar",
     "parse_ok_sound", "parse_no_digits", "print_parse_round_trip", "print_parse_round_trip_unsigned", "le_bytes_round_trip",
-    "ubig_bytes_model", "signed_bytes_round_trip", "ibig_bytes_model", "tower_length_shortcut_sound", "printer_buffers_never_overrun", "digit_writer_sound", "parser_buffers_never_overrun", "chunks_model", "chunks_round_trip", "chunks_zero_panics"]]
+    "ubig_bytes_model", "signed_bytes_round_trip", "ibig_bytes_model", "tower_length_shortcut_sound", "printer_buffers_never_overrun", "digit_writer_sound", "parser_buffers_never_overrun", "chunks_model", "chunks_round_trip", "chunks_zero_panics",
+    "print_prefix_parse_round_trip", "parse_underscores_ignored",
+    "medium_on_words", "write_chunk_on_words", "dword_split_on_words"]]
 EXPLANATION = ("Lean theorems for every word size, radix 2..36 and integer: the printing model (all size classes of both printers) "
                "produces exactly the positional digits; the parsing model equals the documented grammar as a total function on byte "
                "strings (errors included) and parse(print) is the identity in both letter cases; format_prepared equals the "
@@ -522,8 +560,9 @@ EXPLANATION = ("Lean theorems for every word size, radix 2..36 and integer: the 
                "correspondence run only). "
                "Model and code are run side by side on structured inputs; the harness additionally compares every flag "
                "combination with Rust's primitive formatting.")
-ASSUMPTIONS = ["frontier kernels (single-word and multi-word division/multiplication used by the converters) behave as exact "
-               "Nat arithmetic — they are the subject of C01/C02",
+ASSUMPTIONS = ["frontier kernels (FastDivideSmall division by the radix; multi-word division/multiplication of the divide-and-conquer "
+               "converters) behave as exact Nat arithmetic — the multi-word ones are the subject of C01/C02; the single-word divisions by "
+               "range_per_word are tied to C02's contracts by theorems",
                "core::fmt delivers the format spec fields (fill, align, flags, width) as documented"]
 LEVEL_TEXT = ("Machine-checked Lean 4 theorems about an executable model of dashu-int's text and byte converters, for all word sizes, "
               "all radices 2..36 and all integers (no size bound): printed digits = positional representation for every size class "
